@@ -905,5 +905,6 @@ func scribbleValue(x interface{}) {
 			scribbleValue(e)
 			delete(v, k)
 		}
+		v["scribbled"] = true
 	}
 }
